@@ -529,7 +529,7 @@ func c20Analyse(rep *verifutil.Report, pl *c20Plan, out *c20Out, progressOnly bo
 		}
 	}
 	var candidates []int
-	type stat struct{ fallback, arrBefore, known, capPend, covered, uncovered int }
+	type stat struct{ fallback, arrBefore, known, capPend, covered, uncovered, dup int }
 	var st stat
 	for h := 0; h < pl.H; h++ {
 		sort.Slice(annsOf[h], func(i, j int) bool { return anns[annsOf[h][i]].callSeq < anns[annsOf[h][j]].callSeq })
@@ -574,6 +574,7 @@ func c20Analyse(rep *verifutil.Report, pl *c20Plan, out *c20Out, progressOnly bo
 				}
 			}
 			if len(a.reqSeq) > 1 {
+				st.dup++
 				viol("duplicate-request", fmt.Sprintf("(p%d, hash) was requested %d times (#%v)", pl.anns[i].peer, len(a.reqSeq), a.reqSeq), h)
 			}
 			for _, s := range a.reqSeq {
@@ -641,7 +642,7 @@ func c20Analyse(rep *verifutil.Report, pl *c20Plan, out *c20Out, progressOnly bo
 			}
 			if nontrivial {
 				rep.Distinct("tracker", pl.cap[h], sb.String())
-				if h%17 == 0 {
+				if sig := sb.String(); pl.label == "generated" && strings.Contains(sig, "F") && strings.Contains(sig, "+") && strings.Contains(sig, "k") {
 					rep.Sample(map[string]interface{}{"level": "tracker", "pullDelay": pl.pullDelay.String(), "direct_cap": pl.cap[h],
 						"order_signature": sb.String(), "history": c20History(pl, ev, h, addHash)})
 				}
@@ -675,6 +676,8 @@ func c20Analyse(rep *verifutil.Report, pl *c20Plan, out *c20Out, progressOnly bo
 	rep.Count("known_item_announcements", st.known)
 	rep.Count("cap_path_pendings", st.capPend)
 	rep.Count("pend_before_registerpull_returned_unrequested", st.uncovered)
+	rep.Count("seen_forgotten_after_completed_pull", st.covered)
+	rep.Count("seen_duplicate_pairs", st.dup)
 	rep.Count("tracker_events", len(ev))
 	rep.Max("tracker_max_queue", out.maxQueue)
 	return nil
